@@ -16,7 +16,7 @@ import (
 )
 
 // PaintNames must be the list of spec/GState.tla (frame codes are 1-based indices into it).
-var PaintNames = []string{"black", "red", "redh", "dred", "blue", "blueh", "green", "grey", "ggrey", "tbrown"}
+var PaintNames = []string{"black", "red", "redh", "dred", "blue", "blueh", "green", "grey", "ggrey", "tbrown", "rgrey"}
 
 const FreeCode = 99
 
@@ -58,6 +58,10 @@ func snapshot(c *canvas.Canvas) []recEvent {
 		if lg, ok := e.Style.Fill.Gradient.(*canvas.LinearGradient); ok {
 			out[i].Stops = append([]canvas.Stop(nil), lg.Stops...)
 			out[i].Ends = [2]canvas.Point{lg.Start, lg.End}
+		}
+		if rg, ok := e.Style.Fill.Gradient.(*canvas.RadialGradient); ok {
+			out[i].Stops = append([]canvas.Stop(nil), rg.Stops...)
+			out[i].Ends = [2]canvas.Point{rg.C0, rg.C1}
 		}
 	}
 	return out
